@@ -107,6 +107,8 @@ type driver struct {
 	reps    int
 	counts  map[string]int
 	samples map[string]bool
+	aliased int // partition clones whose token slice aliases the original's (observation, see partGC)
+	blanks  int // empty strings met in PartitionRingDesc.MergeContent() (observation, see partContent)
 }
 
 func (dr *driver) sample(kind string, c any) {
@@ -198,13 +200,25 @@ func (dr *driver) ringMerge(c *mergeCase) {
 		emb := dr.embedding(m, rep+dr.counts["merge"])
 		mine := abs.BuildDesc(c.Mine, abs.RingBuild{Emb: emb, Tag: "mine"})
 		other := abs.BuildDesc(c.Other, abs.RingBuild{Emb: emb, Rnd: dr.rnd, Tag: "other"})
+		if (rep+dr.counts["merge"])%2 == 1 {
+			other = viaCodec(other) // every second execution the argument arrives as a gossiped message does: encode -> decode -> Merge
+		}
 		if got := abs.UnixToTs(time.Now().Unix()); got != c.Now {
 			dr.res.Fatal = fmt.Sprintf("bubble clock is %d, case wants %d", got, c.Now)
 			return
 		}
+		snap := mine.Clone().(*ring.Desc) // what a reader / watcher was handed before this merge
 		ch, err, pan := safeMerge(mine, other, c.Cas)
 		if pan != "" || err != nil {
 			dr.res.Mismatch(abs.Mismatch{Sig: ringSig("panic-or-error", c, -1), Case: c, Got: fmt.Sprint(pan, err), Want: "no panic, no error"})
+			return
+		}
+		if gots, problems := abs.ProjectDesc(snap, n, emb); len(problems) > 0 || !gots.Equal(c.Mine) {
+			dr.res.Mismatch(abs.Mismatch{Sig: ringSig("clone-mutated-by-merge", c, -1), Case: c, Got: gots, Want: c.Mine})
+			return
+		}
+		if gotc := ringContent(mine, n); !sameIntSet(gotc, presentIDs(c.Result)) {
+			dr.res.Mismatch(abs.Mismatch{Sig: ringSig("result-MergeContent", c, -1), Case: c, Got: gotc, Want: presentIDs(c.Result)})
 			return
 		}
 		got, problems := abs.ProjectDesc(mine, n, emb)
@@ -246,6 +260,10 @@ func (dr *driver) ringMerge(c *mergeCase) {
 			}
 			if !gotc.Equal(c.Change) {
 				dr.res.Mismatch(abs.Mismatch{Sig: ringSig("change", c, firstDiff(c.Change, gotc)), Case: c, Got: gotc, Want: c.Change, Note: fmt.Sprintf("repetition %d", rep)})
+				return
+			}
+			if gotm := ringContent(chd, n); !sameIntSet(gotm, presentIDs(c.Change)) || len(gotm) == 0 {
+				dr.res.Mismatch(abs.Mismatch{Sig: ringSig("change-MergeContent", c, -1), Case: c, Got: gotm, Want: presentIDs(c.Change)})
 				return
 			}
 		}
@@ -388,14 +406,29 @@ func (dr *driver) partMerge(c *pmergeCase) {
 	}
 	mine := abs.BuildPDesc(c.Mine, tagMine)
 	other := abs.BuildPDesc(c.Other, tagOther)
+	if dr.counts["pmerge"]%2 == 1 {
+		other = pViaCodec(other) // every second case the argument arrives as a gossiped message does: encode -> decode -> Merge
+	}
 	if got := abs.UnixToTs(time.Now().Unix()); got != c.Now {
 		dr.res.Fatal = fmt.Sprintf("bubble clock is %d, case wants %d", got, c.Now)
 		return
 	}
+	snap := mine.Clone().(*ring.PartitionRingDesc) // what a reader / watcher was handed before this merge
 	ch, err, pan := safeMerge(mine, other, c.Cas)
 	if pan != "" || err != nil {
 		dr.res.Mismatch(abs.Mismatch{Sig: partSig("panic-or-error", c), Case: c, Got: fmt.Sprint(pan, err), Want: "no panic, no error"})
 		return
+	}
+	if gots, _, problems := abs.ProjectPDesc(snap, np, no); len(problems) > 0 || !gots.Equal(c.Mine) {
+		dr.res.Mismatch(abs.Mismatch{Sig: partSig("clone-mutated-by-merge", c), Case: c, Got: gots, Want: c.Mine})
+		return
+	}
+	{
+		wp, wo := presentP(c.Result)
+		if gp, gow, _ := partContent(mine, np, no); !sameIntSet(gp, wp) || !sameIntSet(gow, wo) {
+			dr.res.Mismatch(abs.Mismatch{Sig: partSig("result-MergeContent", c), Case: c, Got: map[string]any{"parts": gp, "owners": gow}, Want: map[string]any{"parts": wp, "owners": wo}})
+			return
+		}
 	}
 	got, tags, problems := abs.ProjectPDesc(mine, np, no)
 	if len(problems) > 0 {
@@ -432,6 +465,11 @@ func (dr *driver) partMerge(c *pmergeCase) {
 		gotc, _, problems := abs.ProjectPDesc(chd, np, no)
 		if len(problems) > 0 || !gotc.Equal(c.Change) {
 			dr.res.Mismatch(abs.Mismatch{Sig: partSig("change "+pdiff(c.Change, gotc), c), Case: c, Got: map[string]any{"change": gotc, "problems": problems}, Want: c.Change})
+			return
+		}
+		wp, wo := presentP(c.Change)
+		if gp, gow, _ := partContent(chd, np, no); !sameIntSet(gp, wp) || !sameIntSet(gow, wo) || len(chd.MergeContent()) == 0 {
+			dr.res.Mismatch(abs.Mismatch{Sig: partSig("change-MergeContent", c), Case: c, Got: map[string]any{"parts": gp, "owners": gow}, Want: map[string]any{"parts": wp, "owners": wo}})
 			return
 		}
 	}
@@ -563,7 +601,7 @@ func TestC03(t *testing.T) {
 	nowSet := map[int]bool{}
 	if in != "" {
 		if err := abs.ReadNDJSON(in, func(line []byte) error {
-			if k := kindOf(line); k == "merge" || k == "pmerge" {
+			if k := kindOf(line); k == "merge" || k == "pmerge" || k == "pedit" {
 				nowSet[nowOf(line)] = true
 			}
 			return nil
@@ -629,6 +667,33 @@ func TestC03(t *testing.T) {
 							return err
 						}
 						dr.partConv(&c)
+					case "pedit":
+						if nowOf(line) != now {
+							return nil
+						}
+						var c peditCase
+						if err := json.Unmarshal(line, &c); err != nil {
+							return err
+						}
+						dr.partEdit(&c)
+					case "gc":
+						if ni != 0 {
+							return nil
+						}
+						var c gcCase
+						if err := json.Unmarshal(line, &c); err != nil {
+							return err
+						}
+						dr.ringGC(&c)
+					case "pgc":
+						if ni != 0 {
+							return nil
+						}
+						var c pgcCase
+						if err := json.Unmarshal(line, &c); err != nil {
+							return err
+						}
+						dr.partGC(&c)
 					default:
 						return fmt.Errorf("unknown case kind in %.80s", line)
 					}
@@ -654,5 +719,7 @@ func TestC03(t *testing.T) {
 		res.AddExtra("cases_"+k, v)
 	}
 	res.AddExtra("conv_skipped", convSkipped)
+	res.AddExtra("observed_blank_names_in_partition_MergeContent", dr.blanks)
+	res.AddExtra("observed_partition_clones_sharing_token_storage", dr.aliased)
 	res.Write(t)
 }
